@@ -195,6 +195,7 @@ type Engine struct {
 	pcVars     map[int]bool
 	probeHits  int
 	synUnsat   int
+	regexps    map[*Obj]string
 	rng        *rand.Rand
 }
 
